@@ -60,6 +60,30 @@ pub(super) fn validate_type_conditions(
                 )));
             }
         }
+        TypeId::Object(object_id) => {
+            // On an object, the only other conditions that can ever apply are an interface it
+            // implements or a union it is a member of.
+            let object = query.schema.get_object(object_id);
+            let applies = match selected_type {
+                TypeId::Interface(interface_id) => {
+                    object.implements_interfaces.contains(&interface_id)
+                }
+                TypeId::Union(union_id) => query
+                    .schema
+                    .get_union(union_id)
+                    .variants
+                    .contains(&parent_schema_type_id),
+                _ => false,
+            };
+
+            if !applies {
+                return Err(QueryValidationError::new(format!(
+                    "The spread {}... on {} is not valid.",
+                    object.name,
+                    selected_type.name(query.schema),
+                )));
+            }
+        }
         _ => (),
     }
 
